@@ -13,6 +13,7 @@ import (
 	"sort"
 	"strings"
 	"sync"
+	"sync/atomic"
 	"syscall"
 	"testing"
 	"time"
@@ -191,6 +192,31 @@ func (fc *frozenCache) Get(key interface{}) (interface{}, bool) {
 	fc.c.yield()
 	return v, ok
 }
+
+// ---- handles of a common parent tree whose clones are handed to different clients ----
+//
+// A clone copies the parent's Persist and NodeCache handles, so the handles of a parent that is
+// cloned for several clients cannot belong to one client. They dispatch to whichever client is
+// running (set by the scheduler with an atomic store just before it wakes that client: an edge
+// scheduler->client only, never client->client).
+
+var runningClient atomic.Pointer[tclient]
+
+type dispatchDisk struct{ prefix string }
+
+func (d *dispatchDisk) NodeURLPrefix() string { return d.prefix }
+func (d *dispatchDisk) Load(ctx context.Context, name string) ([]byte, error) {
+	return runningClient.Load().disk.Load(ctx, name)
+}
+func (d *dispatchDisk) Store(ctx context.Context, name string, b []byte) error {
+	return runningClient.Load().disk.Store(ctx, name, b)
+}
+
+type dispatchCache struct{}
+
+func (dispatchCache) Add(k, v interface{})               { runningClient.Load().cache.Add(k, v) }
+func (dispatchCache) Contains(k interface{}) bool        { return runningClient.Load().cache.Contains(k) }
+func (dispatchCache) Get(k interface{}) (interface{}, bool) { return runningClient.Load().cache.Get(k) }
 
 // ---- live binding: one real cache and one locked store, yields around every call ----
 
@@ -387,7 +413,7 @@ func GenThreadScenario(seed uint64, tier string) *Scenario {
 	sc.Extra["setup_seed"] = g.Intn(1 << 30)
 	sc.Extra["setup_n"] = g.Range(c.U/3, c.U)
 	sc.Extra["setup_mods"] = g.Intn(6)
-	sc.Extra["from_clone"] = g.Intn(3) // 0: clients load roots; 1: clients get clones of one parent; 2: mixed
+	sc.Extra["from_clone"] = g.Intn(4) // 0: clients load roots; 1: each client clones its own loaded tree; 2: mixed; 3: all clients get clones of ONE common parent tree
 	n := g.Range(6, 40)
 	ws := []int{30, 14, 6, 4, 3, 8, 3, 2, 4}
 	kinds := []string{"ins", "del", "get", "iter", "seek", "persist", "clone", "diff", "cur"}
@@ -537,8 +563,26 @@ func runThreads(sc *Scenario, ch *Chooser, solo int, logh *hasher) (*threadRun, 
 		clients[i] = c
 	}
 	// initial trees (created by the main goroutine with yields disabled)
+	var commonParent *mast.Mast
 	for i, c := range clients {
 		c.solo = true
+		runningClient.Store(c)
+		if sc.Extra["from_clone"] == 3 {
+			if commonParent == nil {
+				p, err := tb.roots[1].LoadMast(ctx, cfg.RemoteConfig(tb.kd, tb.vd, &dispatchDisk{prefix: tb.disk.NodeURLPrefix()}, dispatchCache{}, nil))
+				if err != nil {
+					return nil, err
+				}
+				commonParent = p
+			}
+			cl, err := commonParent.Clone(ctx)
+			if err != nil {
+				return nil, err
+			}
+			c.trees = append(c.trees, &cl)
+			c.solo = solo >= 0
+			continue
+		}
 		fromClone := sc.Extra["from_clone"] == 1 || (sc.Extra["from_clone"] == 2 && i%2 == 1)
 		m, err := tb.roots[i%len(tb.roots)].LoadMast(ctx, cfg.RemoteConfig(tb.kd, tb.vd, c.disk, c.cache, nil))
 		if err != nil {
@@ -560,6 +604,7 @@ func runThreads(sc *Scenario, ch *Chooser, solo int, logh *hasher) (*threadRun, 
 	tr := &threadRun{traces: make([][]string, n)}
 	var wg sync.WaitGroup
 	if solo >= 0 {
+		runningClient.Store(clients[solo])
 		wg.Add(1)
 		go clients[solo].run(&wg)
 		wg.Wait()
@@ -579,6 +624,7 @@ func runThreads(sc *Scenario, ch *Chooser, solo int, logh *hasher) (*threadRun, 
 		pick := alive[ch.Intn(len(alive))]
 		logh.Int(pick)
 		tr.steps++
+		runningClient.Store(clients[pick])
 		rawWrite(bt.wake[pick][1], 1)
 		b := rawRead(bt.toSched[0])
 		if b&0x80 != 0 {
